@@ -369,7 +369,7 @@ struct ThreadsWorld : World {
                 std::sort(g->change_points.begin(), g->change_points.end());
             }
         // shared read-only objects, created before any worker exists
-        Shared *sh = (Shared *)aligned_alloc(64, (sizeof(Shared) + 63) & ~(size_t)63);
+        Shared *sh = (Shared *)aalloc(64, (sizeof(Shared) + 63) & ~(size_t)63);
         simrng_t mainrng;
         simrng_reset(&mainrng, plan.digest(), SIMRNG_RANDOM);
         simrng_use(&mainrng);
@@ -384,7 +384,7 @@ struct ThreadsWorld : World {
         ascon_masked_key_160_init(&sh->mk160, sh->key);
         std::vector<ThreadCtx *> T;
         for (int t = 0; t < nt; ++t) {
-            ThreadCtx *c = (ThreadCtx *)aligned_alloc(64, (sizeof(ThreadCtx) + 63) & ~(size_t)63);
+            ThreadCtx *c = (ThreadCtx *)aalloc(64, (sizeof(ThreadCtx) + 63) & ~(size_t)63);
             new (c) ThreadCtx();
             c->id = t;
             c->sh = sh;
